@@ -42,6 +42,7 @@ def _seed(name):
         'CC(N)O@': ([(1, 'C'), (2, 'C'), (3, 'N'), (4, 'O')], [(1, 2, 1), (2, 3, 1), (2, 4, 1)]),
         'CC=CC/': ([(1, 'C'), (2, 'C'), (3, 'C'), (4, 'C')], [(1, 2, 1), (2, 3, 2), (3, 4, 1)]),
         'C1CCC1': ([(1, 'C'), (2, 'C'), (3, 'C'), (4, 'C')], [(1, 2, 1), (2, 3, 1), (3, 4, 1), (1, 4, 1)]),
+        'CN~Cu': ([(1, 'C'), (2, 'N'), (3, 'Cu')], [(1, 2, 1), (2, 3, 8)]),
     }
     atoms, bonds = S[name]
     m = mk.build(atoms, bonds)
@@ -52,7 +53,7 @@ def _seed(name):
     return m
 
 
-SEEDS_QUICK = ['C', 'CC', 'C=C', 'CCO', 'C1CC1', 'NaCl', 'CC(N)O@', 'CC=CC/']
+SEEDS_QUICK = ['C', 'CC', 'C=C', 'CCO', 'C1CC1', 'NaCl', 'CC(N)O@', 'CC=CC/', 'CN~Cu']
 SEEDS_THOROUGH = SEEDS_QUICK + ['C1CC1C', 'C1CCC1']
 
 
